@@ -36,7 +36,7 @@ class Recorder:
         self.keep = keep
         self._orig = []
 
-    def wrap(self, owner, name, label=None, digest=None):
+    def wrap(self, owner, name, label=None, digest=None, result=None):
         orig = getattr(owner, name)
         label = label or ('%s.%s' % (getattr(owner, '__name__', type(owner).__name__), name))
         rec = self
@@ -56,6 +56,8 @@ class Recorder:
                 raise
             if len(rec.events) < rec.keep:
                 rec.events.append(('return', label, None))
+            if result is not None:
+                result(a, k, r)            # observer of the returned value (must not modify it)
             return r
         wrapper.__wrapped_by_verif__ = True
         setattr(owner, name, wrapper)
